@@ -8,9 +8,10 @@ TB=$(dirname $(rustc +nightly --print target-libdir))/bin
 mkdir -p $D && cd $D
 sed -e 's#@REPO@#/repo#g' -e 's#@SRC@#/verif/harness#g' /verif/harness/Cargo.toml.in > Cargo.toml
 cp /verif/harness/Cargo.lock .
-CARGO_NET_OFFLINE=true RUSTFLAGS="--cfg epserde_verif -C instrument-coverage" cargo +nightly build --release --offline --features mmap --quiet
+LLVM_PROFILE_FILE="$D/build-%p.profraw" CARGO_NET_OFFLINE=true RUSTFLAGS="--cfg epserde_verif -C instrument-coverage" cargo +nightly build --release --offline --features mmap --quiet
 for P in C08 C09 C10 C11 C12 C13 C14 C15 C19; do for w in $(seq 0 15); do echo "$P $w"; done; done | \
   xargs -P 16 -L 1 bash -c 'LLVM_PROFILE_FILE="'$D'/$0-$1.profraw" RUST_BACKTRACE=0 '$D'/target/release/epsim run --prop $0 --seed ${VERIF_SEED:-1} --tier quick --worker $1 --workers 16 --out '$D'/o-$0-$1.json --scratch '$D'/s-$0-$1 >/dev/null 2>&1'
+rm -f $D/build-*.profraw
 $TB/llvm-profdata merge -sparse $D/*.profraw -o $D/all.profdata
 $TB/llvm-cov report $D/target/release/epsim -instr-profile=$D/all.profdata --ignore-filename-regex='(registry|rustc|harness)' 2>/dev/null | grep -E "epserde|TOTAL" | awk '{printf "%-50s regions %5s missed %4s  %s\n", $1, $2, $3, $4}'
 echo "--- uncovered lines"
